@@ -238,7 +238,10 @@ class Composite(LexicalParent[Node], HasCreator, Node, ABC):
 
     def _write_cache(self, snapshot: dict[str, Any]) -> None:
         super()._write_cache(snapshot)
-        self._cached_internals = snapshot["internals"]
+        # The children of a nested macro receive their (value-linked) inputs only when that
+        # macro fetches, i.e. while our own run is under way: the key taken before the run
+        # would never match again. What the outputs belong to is the state the run left.
+        self._cached_internals = self._internal_cache_key()
 
     @property
     def cache_hit(self):
